@@ -136,13 +136,9 @@ impl Hyphenator {
     /// Add multiple hyphenation exceptions. These are separate words separated by whitespace, with
     /// each word satisfying the format in [`Self::insert_exception`].
     pub fn insert_exceptions(&mut self, hyphenated_words: &str) {
-        hyphenated_words
-            .lines()
-            .map(|l| l.trim())
-            .filter(|l| !l.is_empty())
-            .for_each(|l| {
-                self.insert_exception(l);
-            });
+        hyphenated_words.split_whitespace().for_each(|w| {
+            self.insert_exception(w);
+        });
     }
     /// Add a hyphenation exception. The word is given with hyphens marking the allowed break points,
     /// e.g. `"hy-phen-ation"`.
